@@ -106,6 +106,10 @@ def programs(draw, max_modules=3, max_tasks=4, kinds=KINDS_BASIC, patterns=True,
                     # a dtype=Path parameter (its values are path strings, often with a {PLACEHOLDER})
                     flavour = 5
                     p['dtype'] = 'Path'
+                    if draw(st.integers(0, 2)) > 0:
+                        # a Path default (a Path object in the declaration); configs may spell it out as a string
+                        p['default'] = {'v': draw(st.sampled_from(['/data/x', 'rel/y'])), 'as_path': True}
+                        p['dpdv'] = draw(st.integers(0, 2)) > 0
                 if flavour == 6 and objects:
                     p['object'] = 'Ob' if OB_MAPPING_ARGS['on'] else draw(st.sampled_from(
                         ['Oa', 'Ob'] + (['Oe', 'Oe'] if PLAIN_OBJECTS['on'] else [])))
